@@ -793,7 +793,7 @@ def compare_model(case, dec, mv):
     out = []
     p = case["precision"]
     ts = [truth(e) for e in case["results"]]
-    m_cd, m_cv, m_md, m_cob, m_html, m_lcov, m_files = mv
+    m_cd, m_cv, m_md, m_cob, m_html, m_lcov, m_files, m_ade = mv
     # covdir
     if "covdir" in dec:
         root, files, dirs = dec["covdir"]
@@ -911,6 +911,37 @@ def compare_model(case, dec, mv):
             out.append(("lcov", "section count"))
     if "files" in dec and dec["files"] != [bytes(x) for x in m_files]:
         out.append(("files", "real %s model %s" % (dec["files"], m_files)))
+    # ActiveData-ETL: per file, the method records (any order), the file record and the orphan part, exact lists and totals
+    if "ade" in dec:
+        def part(o):
+            return (list(o["covered"]), list(o["uncovered"]), o["total_covered"], o["total_uncovered"])
+        real = {}
+        order = []
+        for r in dec["ade"]:
+            nm = r["file"]["name"].encode()
+            if nm not in real:
+                real[nm] = {"methods": [], "file": [], "orphan": []}
+                order.append(nm)
+            if r.get("is_file"):
+                real[nm]["file"].append(part(r["file"]))
+                real[nm]["orphan"].append(part(r["method"]))
+            else:
+                real[nm]["methods"].append((r["method"]["name"].encode(), part(r["method"])))
+        mod_order = [bytes(f[0]) for f in m_ade]
+        if order != mod_order:
+            out.append(("ade", "files: real %s model %s" % (order, mod_order)))
+        else:
+            for n, ms, fp, op in m_ade:
+                r = real[bytes(n)]
+                mm = sorted((bytes(a), (list(b[0]), list(b[1]), b[2], b[3])) for a, b in ms)
+                mf = (list(fp[0]), list(fp[1]), fp[2], fp[3])
+                mo = (list(op[0]), list(op[1]), op[2], op[3])
+                if sorted(r["methods"]) != mm:
+                    out.append(("ade", "method records of %s: real %s model %s" % (bytes(n), sorted(r["methods"]), mm)))
+                if r["file"] != [mf]:
+                    out.append(("ade", "file record of %s: real %s model %s" % (bytes(n), r["file"], mf)))
+                if r["orphan"] != [mo]:
+                    out.append(("ade", "orphan part of %s: real %s model %s" % (bytes(n), r["orphan"], mo)))
     return out
 
 
